@@ -247,7 +247,7 @@ def check(ctx):
             "b/same": {"f.go": "package same\n\nfunc Plain() uint64 {\n\treturn 1\n}\n"},
             "c/viaa": {"f.go": "package viaa\n\nimport \"example.com/m/a/same\"\n\nfunc Via() uint64 {\n\treturn same.UseDisk()\n}\n"},
             "d/empty": {"f.go": "package empty\n"},
-            "e/dup": {"f.go": "package dup\n\nfunc F() uint64 {\n\treturn 1\n}\n\nfunc _() {\n}\n\nfunc _() {\n}\n"},
+            "e/dup": {"f.go": "package dup\n\nfunc F() uint64 {\n\treturn 1\n}\n\n// same text twice\nfunc G() {\n}\n", "g.go": "package dup\n\n// same text twice\nfunc H() {\n}\n"},
             "f/trust": {"f.go": "package trust\n\nimport (\n\t\"example.com/m/trusted_x\"\n\t\"example.com/m/b/same\"\n)\n\nfunc T() uint64 {\n\treturn trusted_x.F() + same.Plain()\n}\n",
                         "g.go": "package trust\n\nimport \"example.com/m/b/same\"\n\nfunc T2() uint64 {\n\treturn same.Plain()\n}\n"},
             "trusted_x": {"f.go": "package trusted_x\n\nfunc F() uint64 {\n\treturn 2\n}\n"},
